@@ -250,7 +250,9 @@ def check(ctx, drv, mode, programs, chooser, tag):
         ctx.violation(B.signature(mode, programs, bad), {"case": case, "failed": [bad[0], bad[1]]},
                       f"{mode}: {bad[0]} {bad[1]}")
         return obs, False
-    if drv is not None and ex is not None:
+    if obs.get("blocked"):
+        ctx.count("runs_with_a_thread_blocked_outside_the_controller")
+    elif drv is not None and ex is not None:
         # the tree each search's query got (tree interface, the query ran exactly this search)
         for i, per in enumerate(obs["nodes"]):
             for node, res in zip(per, obs["results"][i]):
